@@ -60,6 +60,14 @@ func scenario(sp spec) *explore.Scenario {
 	}
 }
 
+// obsPub makes the Close call of the handler's publisher an observation.
+type obsPub struct{ *hx.ScriptPub }
+
+func (p obsPub) Close() error {
+	vs.Observe("pubclose")
+	return p.ScriptPub.Close()
+}
+
 func closedNow(ch <-chan struct{}) bool {
 	select {
 	case <-ch:
@@ -92,7 +100,7 @@ func body(sp spec) {
 	if sp.EmptyTopic {
 		ptopic = ""
 	}
-	hnd := r.AddHandler("h", "in", sub, ptopic, pub, func(m *message.Message) ([]*message.Message, error) {
+	hnd := r.AddHandler("h", "in", sub, ptopic, obsPub{pub}, func(m *message.Message) ([]*message.Message, error) {
 		vs.Observe("start %s", m.UUID)
 		switch sp.Handler {
 		case "yield":
@@ -143,7 +151,8 @@ func body(sp spec) {
 				if err != nil {
 					e = "err"
 				}
-				vs.Observe("close %d %s [%s]", i, e, st)
+				// (also: how often the handler's publisher and subscriber had been closed at that instant)
+				vs.Observe("close %d %s pc%d sc%d [%s]", i, e, pub.CloseCalls, sub.CloseCalls, st)
 			}()
 		}
 	}
@@ -180,6 +189,7 @@ func checkLog(sp spec, obs []string) []vs.Failure {
 	}
 	started, ended := map[string]bool{}, map[string]bool{}
 	closedNil := false
+	pubClosed := false // the handler's publisher has been told to close (an observation of its own: ordered with the others)
 	closes, runs := 0, 0
 	slow := sp.Handler == "long" || sp.Handler == "blocked"
 	for _, o := range obs {
@@ -192,6 +202,8 @@ func checkLog(sp spec, obs []string) []vs.Failure {
 			started[f[1]] = true
 		case "end":
 			ended[f[1]] = true
+		case "pubclose":
+			pubClosed = true
 		case "close":
 			closes++
 			inProgress := []string{}
@@ -206,7 +218,12 @@ func checkLog(sp spec, obs []string) []vs.Failure {
 					fail("no-handler-in-progress", "Close returned nil while the handler was still running for %v", inProgress)
 				}
 				// settlement snapshot
-				snap := strings.Trim(strings.Join(f[3:], ""), "[]")
+				// a Close that returns nil has completed: the handler's publisher is closed by then, not some time later
+				// (not applied where the handler had ended by itself: its publisher is closed when its run loop ends)
+				if (f[3] == "pc0" || !pubClosed) && sp.Ends == "" && f[3] != "pc1x" {
+					fail("closes-publisher", "Close returned nil before the handler's publisher was closed")
+				}
+				snap := strings.Trim(strings.Join(f[5:], ""), "[]")
 				for _, kv := range strings.Split(snap, ",") {
 					if kv == "" {
 						continue
@@ -319,7 +336,7 @@ func gochannelScenario(handler string, c int) *explore.Scenario {
 				if err != nil {
 					e = "err"
 				}
-				vs.Observe("close 0 %s [%s]", e, st)
+				vs.Observe("close 0 %s pc1x sc1 [%s]", e, st) // (the Pub/Sub here is not scripted: its Close() calls are not counted)
 			}()
 			wg.Wait()
 			vs.Quiesce()
